@@ -248,9 +248,8 @@ class _Func:
             return out
         if isinstance(e, ast.IfExp):
             out = []
-            for env1, _ in self.evalx(e.test, env, dead):
-                out += self.evalx(e.body, env1, dead)
-                out += self.evalx(e.orelse, env1, dead)
+            for env1, t in self.evalc(e.test, env, dead):
+                out += self.evalx(e.body if t else e.orelse, env1, dead)
             return out
         if isinstance(e, (ast.ListComp, ast.GeneratorExp)):
             cur = [env]
@@ -283,6 +282,50 @@ class _Func:
         for n in _name_loads(e):
             self.read_name(n, env, dead)
         return [(env, P)]
+
+    def evalc(self, e, env, dead):
+        """Evaluates e as a CONDITION: list of (env after, truth outcome).  The outcome of a leaf
+        comparison / name is free (both True and False), but the short-circuit structure is kept:
+        `a or b` is True without evaluating b when a is True, `a and b` is False without
+        evaluating b when a is False, `not` flips, a conditional expression picks its arm."""
+        if isinstance(e, ast.BoolOp):
+            is_and = isinstance(e.op, ast.And)
+            cur = [(env, None)]
+            out = []
+            for k, v in enumerate(e.values):
+                nxt = []
+                for env1, _ in cur:
+                    for env2, t in self.evalc(v, env1, dead):
+                        if k == len(e.values) - 1:
+                            out.append((env2, t))
+                        elif t == (not is_and):
+                            out.append((env2, t))       # short-circuit: decided
+                        else:
+                            nxt.append((env2, t))
+                cur = nxt
+            return out
+        if isinstance(e, ast.UnaryOp) and isinstance(e.op, ast.Not):
+            return [(env1, not t) for env1, t in self.evalc(e.operand, env, dead)]
+        if isinstance(e, ast.IfExp):
+            out = []
+            for env1, t in self.evalc(e.test, env, dead):
+                out += self.evalc(e.body if t else e.orelse, env1, dead)
+            return out
+        if isinstance(e, ast.Constant) and isinstance(e.value, bool):
+            return [(env, e.value)]
+        out = []
+        for env1, _ in self.evalx(e, env, dead):
+            out.append((env1, True))
+            out.append((env1, False))
+        return out
+
+    def cond_states(self, e, st):
+        """(state when e is true, state when e is false)."""
+        t, f = set(), set()
+        for env in st[1]:
+            for env1, o in self.evalc(e, env, st[0]):
+                (t if o else f).add(env1)
+        return (st[0], frozenset(t)), (st[0], frozenset(f))
 
     def eval(self, e, env, dead):
         """Type of e in env (first outcome); kept for callers that only need the reads."""
@@ -374,10 +417,14 @@ class _Func:
     def do_if(self, s, st):
         dead, envs = st
         c = const_cond(s.test) if self.mode == "const" else None
-        st = self.eval_state(s.test, st)
-        dead, envs = st
-        then_in = st if c is not False else (True, envs)
-        else_in = st if c is not True else (True, envs)
+        st_t, st_f = self.cond_states(s.test, st)
+        dead = st[0]
+        if c is None:
+            then_in, else_in = st_t, st_f
+        else:
+            both = frozenset(st_t[1] | st_f[1] | st[1])
+            then_in = (dead, both) if c else (True, both)
+            else_in = (True, both) if c else (dead, both)
         t = self.block(s.body, then_in)
         e = self.block(s.orelse, else_in)
         return self.join(t, e)
@@ -386,7 +433,8 @@ class _Func:
         c = const_cond(s.test) if self.mode == "const" else None
         head = st
         while True:
-            tested = self.eval_state(s.test, head)
+            t_in, f_in = self.cond_states(s.test, head)
+            tested = (head[0], frozenset(t_in[1] | f_in[1])) if c is not None else t_in
             body_in = tested if c is not False else (True, tested[1])
             self.loops.append({"breaks": [], "continues": []})
             out = self.block(s.body, body_in)
@@ -395,7 +443,8 @@ class _Func:
             if new_head == head:
                 break
             head = new_head
-        tested = self.eval_state(s.test, head)
+        t_in, f_in = self.cond_states(s.test, head)
+        tested = (head[0], frozenset(t_in[1] | f_in[1])) if c is not None else f_in
         exit_st = tested if c is not True else (True, tested[1])
         return self.join(exit_st, *lp["breaks"])
 
